@@ -3,7 +3,7 @@
    Print Assumptions.  Statements are over the executable model of coq/C19/Model.v, whose
    constants are regenerated from /repo into Gen.v on every run. *)
 From Coq Require Import Permutation.
-From C19 Require Import Model Proofs ProofsMachine.
+From C19 Require Import Model Proofs ProofsMachine ProofsHeap.
 Local Open Scope Z_scope.
 
 (* every small request is served by a class whose blocks are at least as large *)
@@ -128,3 +128,19 @@ Theorem C19_span_machine_history : forall psh c, valid_class c -> forall ops,
   end.
 Proof. exact span_machine_history. Qed.
 Print Assumptions C19_span_machine_history.
+
+(* the allocation path of L_alloc as a whole (class selection + span machine + geometry): whenever
+   the model's _rpmalloc_allocate succeeds on a heap whose serving class satisfies the span-machine
+   invariant, the block is at least as large as requested, LALLOC_ALIGN-aligned, after the span
+   header, inside its span and (small/medium) not one of the live blocks *)
+Theorem C19_allocate_fits : forall psh h size e_span e_count live h' s off us,
+  page_shift_ok psh -> 0 <= size -> size + SPAN_HEADER_SIZE < W64 ->
+  class_inv (class_bc (selected_class size)) (cl_lookup (selected_class size) (h_classes h)) live ->
+  heap_allocate psh h size e_span e_count = COk (h', s, off, us) ->
+  size <= us /\ address s off mod LALLOC_ALIGN = 0 /\ SPAN_HEADER_SIZE <= off /\
+  (match regime_of size with
+   | Small | Medium => off + us <= SPAN_SIZE /\ ~ In (s, (off - SPAN_HEADER_SIZE) / us) live
+   | _ => off = SPAN_HEADER_SIZE
+   end).
+Proof. exact heap_allocate_fits. Qed.
+Print Assumptions C19_allocate_fits.
